@@ -230,3 +230,40 @@ def run(ctx):
     from . import C26 as _borrowed_C26
 
     _borrowed_C26.run(BorrowCtx(ctx, {"C26.4": "C38.8"}))
+
+    # ---- C38.9 the calling job's row exists before the task can run ------------------------------------------------
+    # subrun(new_execution=False) makes the sub-scheduler look up the calling job (extend_run(parent_job_id=...)) through its own database
+    # connection, from the executor's worker.  The parent writes that row in record_job_start: it must be written before the job is handed to
+    # an executor, or the lookup races with the parent's commit and fails with `Unknown parent_job_id`.
+    from ..cfg import CFG
+
+    r9 = ctx.rule("C38.9", "record_job_start precedes every hand-off to an executor (for provenance-recording jobs)", floor=2)
+    ex9 = m.func("Scheduler._exec_job_main_thread")
+    jv9 = ex9.args.args[1].arg
+    cfg9 = CFG(ex9)
+    starts = {cfg9.node_of(c) for c in calls_in(ex9, shallow=True) if call_name(c) == "self.backend.record_job_start"}
+    skip = set()
+    for n in cfg9.nodes:
+        if n.kind == "test" and isinstance(n.ast, ast.expr) and src(n.ast) == f"{jv9}.recording_provenance()":
+            skip |= set(cfg9.edge_nodes(n, "F"))
+    subs = [c for c in calls_in(ex9, shallow=True) if isinstance(c.func, ast.Attribute) and c.func.attr in ("submit", "submit_script") and c.args and src(c.args[0]) == jv9]
+    if not starts or len(subs) < 2:
+        raise AnalysisError(f"exec handler: record_job_start ({len(starts)}) / executor submit calls ({len(subs)}) not found", "Scheduler._exec_job_main_thread")
+    for c in subs:
+        # recording jobs: no path from entry to the hand-off avoids record_job_start, except through the `not recording_provenance()` edge
+        ok9 = cfg9.must_pass(cfg9.entry, starts | skip, targets=[cfg9.node_of(c)])
+        r9.check(
+            ok9 and _start_before(cfg9, starts, cfg9.node_of(c)),
+            f"{m.rel}:Scheduler._exec_job_main_thread:start-before-{c.func.attr}",
+            f"`{src(c)[:40]}` can be reached before backend.record_job_start({jv9}): the executor may run the task before the Job row is committed; subrun(new_execution=False) then "
+            "fails with `Unknown parent_job_id` (the sub-scheduler reads the row through its own connection) where a direct evaluation returns the result",
+            m.rel,
+            c.lineno,
+        )
+
+
+def _start_before(cfg, starts, target) -> bool:
+    """No start node is reachable *from* the target (the start is not after the hand-off), and some start can reach the target."""
+    after = any(cfg.can_reach(target, s) for s in starts)
+    before = any(cfg.can_reach(s, target) for s in starts)
+    return before and not after
